@@ -222,6 +222,12 @@ def lastEnd (parts : List DPart) : Nat :=
   | none => 0
   | some p => p.offset + p.size
 
+/-- Faithful to the Go code on every disciplined sequence (`WF`, `WFrm`) and, outside the
+    discipline, for writes/seeks to earlier parts, `Remove` before `Finalize` and NON-EMPTY
+    writes after `Finalize` (all exercised by the T2 `undisciplined` stream).  NOT modelled:
+    `Seek` / empty `Write` / `NewPart` / a second `Finalize` after `Finalize` -- there the real
+    code dereferences the dropped mirror buffer (nil-pointer panic) or keeps using the orphaned
+    one, depending on when `Part.Writer()` was called (notes/storage.md). -/
 def Disk.step (s : Disk) : Op → Disk × Out
   | .newPart =>
     let parts := setLastSize s.parts
